@@ -449,6 +449,146 @@ theorem exactly_one (g : G) (rs : List Req) (b : Bool) (k : Str) (hne : rs ≠ [
     · exact .inl f
     · exact .inr f
 
+/-! ## 4b. serial canonicalisation (`RevokeRequest.Validate`) -/
+
+theorem digitVal_digit (d : Nat) (h : d < 10) : digitVal (48 + d) = some d := by
+  unfold digitVal
+  have h1 : 48 ≤ 48 + d ∧ 48 + d ≤ 57 := by omega
+  simp [h1]
+
+theorem scanDigits_append (b : Nat) (xs ys : Str) (v c : Nat) (p i : Bool) :
+    scanDigits b (xs ++ ys) v c p i =
+      match scanDigits b xs v c p i with
+      | none => none
+      | some (v', c', p', i') => scanDigits b ys v' c' p' i' := by
+  induction xs generalizing v c p i with
+  | nil => simp [scanDigits]
+  | cons x xs ih =>
+    simp only [List.cons_append, scanDigits]
+    split
+    · exact ih ..
+    · split
+      · split
+        · exact ih ..
+        · rfl
+      · rfl
+
+/-- scanning the decimal digits of `m` from a clean state yields `m` -/
+theorem scan_dec (f : Nat) : ∀ m, m < 10 ^ (f + 1) → ∀ p i,
+    ∃ c, 1 ≤ c ∧ scanDigits 10 (decDigitsF (f + 1) m) 0 0 p i = some (m, c, true, i) := by
+  induction f with
+  | zero =>
+    intro m hm p i
+    have hm : m < 10 := by simpa using hm
+    refine ⟨1, Nat.le_refl _, ?_⟩
+    simp [decDigitsF, hm, scanDigits, digitVal_digit m hm]
+    omega
+  | succ f ih =>
+    intro m hm p i
+    by_cases h10 : m < 10
+    · refine ⟨1, Nat.le_refl _, ?_⟩
+      simp [decDigitsF, h10, scanDigits, digitVal_digit m h10]
+      omega
+    · have hdiv : m / 10 < 10 ^ (f + 1) := by
+        apply Nat.div_lt_of_lt_mul
+        rw [Nat.pow_succ] at hm; omega
+      obtain ⟨c, hc, hs⟩ := ih (m / 10) hdiv p i
+      refine ⟨c + 1, by omega, ?_⟩
+      have hd : decDigitsF (f + 1 + 1) m = decDigitsF (f + 1) (m / 10) ++ [48 + m % 10] := by
+        rw [decDigitsF]; simp [h10]
+      rw [hd, scanDigits_append, hs]
+      have hmod : m % 10 < 10 := Nat.mod_lt _ (by omega)
+      simp [scanDigits, digitVal_digit _ hmod, hmod]
+      have h95 : ¬ (48 + m % 10 = 95) := by omega
+      simp [h95]
+      omega
+
+theorem lt_pow_succ (n : Nat) : n < 10 ^ (n + 1) := by
+  have : n + 1 < 10 ^ (n + 1) := Nat.lt_pow_self (by omega)
+  omega
+
+/-- the first decimal digit of a positive number is not `0`, and it is a digit -/
+theorem dec_head (f : Nat) : ∀ m, 1 ≤ m → m < 10 ^ (f + 1) →
+    ∃ d rest, decDigitsF (f + 1) m = d :: rest ∧ 49 ≤ d ∧ d ≤ 57 := by
+  induction f with
+  | zero =>
+    intro m h1 hm
+    have hm : m < 10 := by simpa using hm
+    exact ⟨48 + m, [], by simp [decDigitsF, hm], by omega, by omega⟩
+  | succ f ih =>
+    intro m h1 hm
+    by_cases h10 : m < 10
+    · exact ⟨48 + m, [], by simp [decDigitsF, h10], by omega, by omega⟩
+    · have hdiv : m / 10 < 10 ^ (f + 1) := by
+        apply Nat.div_lt_of_lt_mul
+        rw [Nat.pow_succ] at hm; omega
+      obtain ⟨d, rest, hd, h49, h57⟩ := ih (m / 10) (by omega) hdiv
+      refine ⟨d, rest ++ [48 + m % 10], ?_, h49, h57⟩
+      rw [decDigitsF]; simp [h10, hd]
+
+theorem scanNat_dec (n : Nat) : scanNat (decDigits n) = some n := by
+  by_cases h0 : n = 0
+  · subst h0; rfl
+  · obtain ⟨d, rest, hd, h49, h57⟩ := dec_head n n (by omega) (lt_pow_succ n)
+    obtain ⟨c, hc, hs⟩ := scan_dec n n (lt_pow_succ n) false false
+    unfold decDigits
+    unfold scanNat
+    rw [hd] at hs ⊢
+    split
+    · rename_i heq; simp at heq; omega
+    · rename_i heq; simp at heq; omega
+    · rw [hs]; simp; omega
+
+theorem parse_print (v : Bool × Nat) :
+    parseSerial (printSerial v) = some (v.1 && v.2 != 0, v.2) := by
+  unfold printSerial
+  by_cases hneg : v.1 = true ∧ v.2 ≠ 0
+  · simp only [hneg]
+    simp [parseSerial, scanNat_dec, hneg.2]
+  · simp only [hneg, if_false]
+    have hb : (v.1 && v.2 != 0) = false := by
+      cases h1 : v.1 <;> simp_all
+    rw [hb]
+    by_cases h0 : v.2 = 0
+    · rw [h0]; rfl
+    · obtain ⟨d, rest, hd, h49, h57⟩ := dec_head v.2 v.2 (by omega) (lt_pow_succ v.2)
+      have := scanNat_dec v.2
+      unfold decDigits at this ⊢
+      rw [hd] at this ⊢
+      unfold parseSerial
+      split
+      · rename_i heq; simp at heq; omega
+      · rename_i heq; simp at heq; omega
+      · rw [this]; rfl
+
+theorem decDigitsF_ne_nil (f m : Nat) : decDigitsF (f + 1) m ≠ [] := by
+  rw [decDigitsF]; split <;> simp
+
+/-- **serial_canonical (idempotence).** What `Validate` produces is a fixed point of `Validate`:
+    the stored key is canonical, so every spelling of one value is mapped to one key and that key
+    maps to itself. -/
+theorem serial_canonical (t c : Str) (h : canonSerial t = some c) : canonSerial c = some c := by
+  unfold canonSerial at h
+  split at h
+  · cases h
+  · cases hp : parseSerial t with
+    | none => rw [hp] at h; cases h
+    | some v =>
+      rw [hp] at h; simp at h; subst h
+      unfold canonSerial
+      have hne : printSerial v ≠ [] := by
+        unfold printSerial decDigits; split
+        · simp
+        · exact decDigitsF_ne_nil _ _
+      simp only [hne, if_false]
+      rw [parse_print]
+      simp [printSerial]
+
+/-- the key depends only on the parsed value: two spellings of one number share their key -/
+theorem serial_same_value (a b : Str) (v : Bool × Nat) (ha : parseSerial a = some v) (hb : parseSerial b = some v)
+    (hna : a ≠ []) (hnb : b ≠ []) : canonSerial a = canonSerial b ∧ canonSerial a = some (printSerial v) := by
+  unfold canonSerial; simp [ha, hb, hna, hnb]
+
 /-! ## 5. the SSH route does not canonicalise (D13) -/
 
 def mk (kind : Kind) (key : String) (tag : Nat) : Req :=
